@@ -42,6 +42,11 @@ def _norm(v, depth=0, seen=None):
         return ('obj', getattr(v, '__qualname__', repr(v)))
     if type(v).__name__ == 'Tok':
         return ('tok', v.name)
+    if type(v).__name__ == 'GhostCounter':
+        return ('count', _norm(v.value))
+    if type(v).__name__ == 'count' and type(v).__module__ == 'itertools':
+        import re
+        return ('count', int(re.match(r'count\((-?\d+)\)', repr(v)).group(1)))
     if id(v) in seen:
         return ('ref', seen[id(v)])
     d = getattr(v, '__dict__', None)
@@ -59,7 +64,8 @@ def crosscheck(con, k, seed, repo_root, verif_root):
     rng = random.Random((seed << 8) ^ (hash(con.name) & 0xffff))
     cfg = C.make_config(repo_root, verif_root)
     cfg.target = con.func
-    cfg.contracts = {}          # pure interpretation of every body: this checks the interpreter, not the contracts
+    # pure interpretation of every body: this checks the interpreter, not the contracts (ghost-traced externals stay)
+    cfg.contracts = dict((k, c) for k, c in cfg.contracts.items() if isinstance(c, C.TraceContract))
     tries = 0
     while out['runs'] < k and tries < 6 * k:
         tries += 1
@@ -74,20 +80,44 @@ def crosscheck(con, k, seed, repo_root, verif_root):
         except Exception:
             out['skipped'] += 1
             continue
-        values = dict(b.values)
         args, kwargs = con.call_args(env)
+        saved_globals = []
+        for gname, (gmod, gshape) in con.globals_.items():
+            import importlib
+            gv = (gshape if isinstance(gshape, C.Shape) else C.Const(gshape)).build(b, gname)
+            mod = importlib.import_module(gmod)
+            saved_globals.append((mod, gname, getattr(mod, gname)))
+            setattr(mod, gname, gv)
+            env[gname] = gv
+        ext = C._native_externals(b.values)
+        ext.__enter__()
         try:
             nres = con.func(*args, **kwargs)
             nout = 'return'
         except Exception as e:
             nres = None
             nout = 'raise ' + type(e).__name__
+        finally:
+            ext.__exit__()
+            for gname, (gmod, gshape) in con.globals_.items():
+                import importlib
+                env[gname] = getattr(importlib.import_module(gmod), gname)
+            for mod, gname, orig in saved_globals:
+                setattr(mod, gname, orig)
+        values = dict(b.values)
         nstate = _norm({'result': nres, 'env': env})
         # interpreter side, same concrete values
         ctx = PathCtx()
         I = Interp(ctx, cfg)
         b2 = C.Builder('interp', values=dict(values), rng=random.Random(0))
         env2 = con.build_inputs(b2)
+        gkeys = {}
+        for gname, (gmod, gshape) in con.globals_.items():
+            import importlib
+            gv = (gshape if isinstance(gshape, C.Shape) else C.Const(gshape)).build(b2, gname)
+            gkeys[gname] = (id(importlib.import_module(gmod).__dict__), gname)
+            I.goverlay[gkeys[gname]] = gv
+        cfg.ext_values = dict(values)
         args2, kwargs2 = con.call_args(env2)
         try:
             ires = I.call_function(con.func, args2, kwargs2, defclass=C._defclass(con.func))
@@ -99,6 +129,8 @@ def crosscheck(con, k, seed, repo_root, verif_root):
             out['skipped'] += 1
             continue
         out['runs'] += 1
+        for gname, gk in gkeys.items():
+            env2[gname] = I.goverlay[gk]
         istate = _norm({'result': ires, 'env': env2})
         if nout != iout or nstate != istate:
             if len(out['disagreements']) < 3:
